@@ -113,7 +113,8 @@ class BuildError(Exception):
 
 def _compile_obj(src, flavor, extra):
     flags = ["-std=c++20", "-w", "-D" + GUARD, "-I" + os.path.join(REPO, "include"), "-I" + os.path.join(ROOT, "harness")] + FLAVORS[flavor] + extra
-    key = sha(include_hash(), read(src, "rb"), read(os.path.join(ROOT, "harness", "hcommon.hpp"), "rb"), " ".join(flags))[:24]
+    hdrs = b"".join(read(h, "rb") for h in sorted(glob.glob(os.path.join(ROOT, "harness", "*.hpp"))))
+    key = sha(include_hash(), read(src, "rb"), hdrs, " ".join(flags))[:24]
     obj = os.path.join(BUILD, "obj", key + ".o")
     if os.path.exists(obj):
         return obj, None
